@@ -26,6 +26,7 @@ def run(ctx, repo):
     ctx.rule('R4', 'unknown key -> None guard dominates the table subscripts')
     ctx.rule('R5', 'GRID on score() and performance(): the forward function is exact on the 0.01 grid')
     ctx.rule('R6', 'no history: memo transparency; the shared coefficient rows are never changed in place')
+    ctx.rule('R7', 'score() and performance() resolve every row of the table to the same coefficient row (hurdles remap on both sides or on neither)')
     sarms, _ = dispatch_arms(score)
     parms, pchain = dispatch_arms(perf)
     if sarms is None or parms is None:
@@ -193,3 +194,29 @@ def run(ctx, repo):
             ctx.finding('R6', '%s::%s::shared row changed in place' % (ATH, fn.name), ATH, node.lineno, msg, 'one esaa=True call, then a plain M-800 call')
         if not res:
             ctx.ok('R6', '%s: %d memo(s), transparent; no shared row changed in place' % (fn.name, len(memos)))
+    # ---- R7 the two directions resolve an event code to the same row: every code that score() rewrites before its lookup (the veterans'
+    # hurdles remap) is rewritten by performance() too, or is not a row of the table (then performance() answers None for it)
+    def remaps(fn_):
+        out = {}
+        evp_ = fn_.args.args[1].arg
+        for n in ast.walk(fn_):
+            if isinstance(n, ast.If):
+                t = ast.unparse(n.test)
+                asg = [s_ for s_ in n.body if isinstance(s_, ast.Assign) and ast.unparse(s_.targets[0]) == evp_ and isinstance(s_.value, ast.Constant)]
+                if asg and evp_ in t:
+                    gs = [c.value for c in ast.walk(n.test) if isinstance(c, ast.Constant) and c.value in ('M', 'F')] or ['M', 'F']
+                    evs = [c.value for c in ast.walk(n.test) if isinstance(c, ast.Constant) and isinstance(c.value, str) and c.value not in ('M', 'F')]
+                    for g_ in gs:
+                        for e_ in evs:
+                            out['%s-%s' % (g_, e_)] = asg[0].value.value
+        return out
+    rs, rp = remaps(score), remaps(perf)
+    tkeys = {'%s-%s' % (r['gender'], r['event_code']) for r in repo.const(ATH, '_scoring_table') if isinstance(r, dict)}
+    diff = sorted(k for k in set(rs) | set(rp) if rs.get(k) != rp.get(k) and k in tkeys)
+    if diff:
+        ctx.finding('R7', '%s::score/performance::codes resolved to different rows' % ATH, ATH, perf.lineno,
+                    'for %s score() uses the row of %s while performance() uses the row of %s: the performance reported for a target is scored with '
+                    'other coefficients, so it is not the inverse' % (diff, [rs.get(k, k.split('-')[1]) for k in diff], [rp.get(k, k.split('-')[1]) for k in diff]), diff[0])
+    else:
+        ctx.ok('R7', 'score() and performance() resolve every table row to the same coefficients (remaps: %s / %s)' % (rs, rp))
+
